@@ -27,12 +27,18 @@ RMTV
 * FINDING `finding_rmtv_restrictions_not_enforced` : the documentation (rmtv/__init__.py,
   Eq. chidef) restricts the conductivity exponents to a ≤ 0, b ≥ 1; `Rmtv(aval=1/2)` is accepted
   (and, on the real code, returns finite numbers — oracle `o_guderley.rmtv_restrictions`).
+* `rmtv_derivs_outcome` : the only run-time guards are in `derivs` (model RmtvDerivs): alpha = 0,
+  aval = 1 and a vanishing denominator raise `ValueError`; but the degenerate-state branch
+  (|y[1]| ≤ 1e-16 or |y[3]| ≤ 1e-16) calls `np.sign(1.0, y[2])` — a Fortran `SIGN(a, b)` left
+  untranslated — and raises `TypeError` ("return arrays must be of ArrayType"): this is what
+  `Rmtv(bval=0.8)` (documented b ≥ 1 violated) dies with on the real code.
 -/
 import EPV.Gen.GudInit
 import EPV.Gen.GudEexp
 import EPV.Gen.GudState
 import EPV.Gen.GudX
 import EPV.Gen.RmtvInit
+import EPV.Gen.RmtvDerivs
 import EPV.Tactics
 
 set_option linter.all false
@@ -103,6 +109,30 @@ theorem finding_rmtv_restrictions_not_enforced :
   intro h
   have := (h (1 / 2) (13 / 2) ⟨()⟩ (rmtv_init_accepts_everything _)).1
   norm_num at this
+
+/-- the traced outcome of `derivs`: which guard raises what -/
+theorem rmtv_derivs_outcome (p : RmtvDerivs.P) :
+    (p.alpha = 0 → RmtvDerivs.outcome p = .raise "ValueError")
+    ∧ (p.alpha ≠ 0 → (RmtvDerivs.c1 p ∨ RmtvDerivs.c2 p) → RmtvDerivs.outcome p = .raise "TypeError")
+    ∧ (p.alpha ≠ 0 → ¬ RmtvDerivs.c1 p → ¬ RmtvDerivs.c2 p → (RmtvDerivs.c3 p ∨ RmtvDerivs.c4 p) →
+        RmtvDerivs.outcome p = .raise "ValueError")
+    ∧ (p.alpha ≠ 0 → ¬ RmtvDerivs.c1 p → ¬ RmtvDerivs.c2 p → ¬ RmtvDerivs.c3 p → ¬ RmtvDerivs.c4 p →
+        RmtvDerivs.outcome p = .ok) := by
+  have h0 : RmtvDerivs.c0 p ↔ p.alpha = 0 := by simp only [epv_cond]
+  simp only [epv_tree]
+  refine ⟨?_, ?_, ?_, ?_⟩
+  · intro h; simp only [h0.mpr h, if_true]
+  · intro h hc
+    have : ¬ RmtvDerivs.c0 p := fun hh => h (h0.mp hh)
+    split_ifs <;> first | rfl | (exfalso; tauto)
+  · intro h h1 h2 hc
+    have : ¬ RmtvDerivs.c0 p := fun hh => h (h0.mp hh)
+    split_ifs <;> first | rfl | (exfalso; tauto)
+  · intro h h1 h2 h3 h4
+    have : ¬ RmtvDerivs.c0 p := fun hh => h (h0.mp hh)
+    split_ifs <;> first | rfl | (exfalso; tauto)
+
+theorem rmtv_derivs_leaves : RmtvDerivs.okLeaves = [5] := rfl
 
 /-- **Finding.**  t = 0.750024322 is an in-domain request whose traced formula has a zero denominator -/
 theorem finding_guderley_focus_time (q : GudX.P) (r : ℝ) :
